@@ -100,6 +100,7 @@ class TapeRandom:
         self.n_int = 0
         self.at_low = self.at_high = 0
         self.first_char = False
+        self.index_small = False      # C17: short alphabets are indexed, so that their ORDER is observable
 
     def _next_int(self):
         if self.i >= len(self.ints):
@@ -136,7 +137,7 @@ class TapeRandom:
         self.draws += 1
         if isinstance(seq, str) and self.first_char:
             return seq[0]
-        if isinstance(seq, str) and self.chars:
+        if isinstance(seq, str) and self.chars and not (self.index_small and n <= 8):
             if self.c >= len(self.chars):
                 raise IgnoreAttempt("char tape exhausted")
             ch = self.chars[self.c]
@@ -721,9 +722,10 @@ class gen_env:
     Installs the TapeRandom stub and (small=True) scales the generator's default length caps down
     to SMALL_DEFAULTS so that loops over drawn lengths stay short.  Everything is restored."""
 
-    def __init__(self, ints=(), chars=(), floats=(), small=True, first_char=False):
+    def __init__(self, ints=(), chars=(), floats=(), small=True, first_char=False, index_small=False):
         self.t = TapeRandom(ints, chars, floats)
         self.t.first_char = first_char
+        self.t.index_small = index_small
         self.small = small
         self.saved = {}
 
@@ -1571,3 +1573,80 @@ def conc(i, hi):
 
 def cb(b):
     return True if b else False
+
+
+# --------------------------------------------------------------------------- C17: reproducibility
+import os as _os  # noqa: E402
+import subprocess as _subprocess  # noqa: E402
+
+if UNDER_CROSSHAIR:
+    import hash_order as _hash_order
+else:
+    _hash_order = None
+
+REGEX_GEN = d42.generation._generator._regex_generator
+SMALL_LETTERS = "abcd"
+
+
+class hash_orders:
+    """with hash_orders((o0, o1, ...)): ...   - set iteration order inside d42 is chosen by the tape."""
+
+    def __init__(self, order):
+        self.order = list(order)
+
+    def __enter__(self):
+        self.saved = REGEX_GEN._alphabet["letters"]
+        REGEX_GEN._alphabet["letters"] = SMALL_LETTERS
+        if _hash_order is not None:
+            _hash_order.ORDER[:] = self.order
+            _hash_order.POS[0] = 0
+            _hash_order.ACTIVE[0] = True
+        return self
+
+    def __exit__(self, *exc):
+        REGEX_GEN._alphabet["letters"] = self.saved
+        if _hash_order is not None:
+            _hash_order.ACTIVE[0] = False
+        return False
+
+
+_DIFF_SCRIPT = """
+import sys
+sys.path.insert(0, %(engine)r)
+from hlib import *
+REGEX_GEN._alphabet["letters"] = SMALL_LETTERS
+with gen_env(%(ints)r, %(chars)r, (), small=True, index_small=True) as t:
+    out = %(expr)s
+print(ascii(out))
+"""
+
+
+def hashseed_outputs(expr, ints, chars, seeds=(0, 1, 2, 3, 4, 5, 6, 7)):
+    """Plain-CPython replay for C17(a): evaluate `expr` in fresh interpreters that differ only in PYTHONHASHSEED."""
+    outs = []
+    for hs in seeds:
+        env = dict(_os.environ)
+        env["PYTHONHASHSEED"] = str(hs)
+        env.pop("PYTHONPATH", None)
+        code = _DIFF_SCRIPT % dict(engine=_os.path.dirname(_os.path.abspath(__file__)), ints=tuple(ints), chars=tuple(chars), expr=expr)
+        cp = _subprocess.run([sys.executable, "-c", code], capture_output=True, text=True, env=env, timeout=120)
+        outs.append(cp.stdout.strip() if cp.returncode == 0 else "ERR:" + cp.stderr.strip()[-200:])
+    return outs
+
+
+def same_under_hash_orders(expr, ns, ints, chars, order_a, order_b):
+    """True when evaluating `expr` (a Python expression over hlib names and `ns`) gives the same value whatever
+    the set iteration order.  Symbolic run: two executions with two solver-chosen orders.  Replay: fresh
+    interpreters with different PYTHONHASHSEED (expr must then be closed: ns values are inlined by the caller)."""
+    if UNDER_CROSSHAIR:
+        env = dict(globals())
+        env.update(ns)
+        with hash_orders(order_a):
+            with gen_env(ints, chars, (), small=True, index_small=True) as t:
+                a = eval(expr, env)
+        with hash_orders(order_b):
+            with gen_env(ints, chars, (), small=True, index_small=True) as t:
+                b = eval(expr, env)
+        return a == b
+    outs = hashseed_outputs(expr, ints, chars)
+    return len(set(outs)) == 1
